@@ -9,7 +9,7 @@ import json, os, shutil, sys
 
 prop, v, caught = sys.argv[1], sys.argv[2], sys.argv[3]
 rnd = sys.argv[4] if len(sys.argv) > 4 else '1'
-src = {'1': '/tmp/seed_out/%s', '2': '/tmp/seed_out2/%s',
+src = {"1": "/tmp/seed_out/%s", "2": "/tmp/seed_out2/%s", "4": "/tmp/seed_out4/%s",
        '3': '/tmp/seed_out3/%s'}[rnd] % prop
 sid = '%s%s' % (prop, v) if rnd == '1' else '%s-r%s%s' % (prop, rnd, v)
 dst = '/verif/seeded/%s' % sid
